@@ -508,6 +508,7 @@ fn run_stripe(ctx: &Ctx, cfg: &SupervisorCfg, k: u64, corpus: &[(String, Vec<u8>
     let mut resume_sub = 0u64;
     let total = cfg.plan.total_bases(corpus.len() as u64);
     let prop = ctx.prop.clone();
+    let mut outside_kills: std::collections::HashMap<(u64, u64), u32> = std::collections::HashMap::new();
     loop {
         if first >= total {
             break;
@@ -689,6 +690,32 @@ fn run_stripe(ctx: &Ctx, cfg: &SupervisorCfg, k: u64, corpus: &[(String, Vec<u8>
         }
         // death: attribute to the last B without E
         res.deaths += 1;
+        // A SIGKILL that the supervisor did not send comes from outside (the kernel's out-of-memory killer picking a
+        // victim while other processes fill the machine): the worker itself runs under an address-space limit and
+        // fails with an abort, never with SIGKILL. Such a death says nothing about the input - the same input (or the
+        // same base, when the worker was between inputs) is given to a fresh worker, twice at most; a death that
+        // repeats is then judged like any other.
+        if sig == Some(libc::SIGKILL) && !was_killed {
+            let key = last_begin.unwrap_or((cur_base, u64::MAX));
+            let n = outside_kills.entry(key).or_insert(0u32);
+            *n += 1;
+            if *n <= 2 {
+                res.summary.counters.entry("workers_killed_from_outside_and_restarted".into()).and_modify(|c| *c += 1).or_insert(1);
+                std::thread::sleep(std::time::Duration::from_secs(2 * *n as u64));
+                match last_begin {
+                    Some((b, sub)) => {
+                        first = b;
+                        resume_sub = sub;
+                    }
+                    None => {
+                        first = cur_base;
+                        resume_sub = 0;
+                    }
+                }
+                res.restarts += 1;
+                continue;
+            }
+        }
         if was_killed {
             // presumed hang: the verdict is decided on CPU time of an isolated re-run, never on wall time
             if let Some((b, s)) = last_begin {
